@@ -14,6 +14,7 @@ import (
 )
 
 type Engine struct {
+	alt     map[string]*Program // programs loaded under additional build tags
 	P       *Program
 	CS      *ContractSet
 	timeout int
@@ -82,14 +83,63 @@ func expandSplits(c *Contract) []splitCase {
 	return cases
 }
 
-// verifyFunction generates all obligations of one function under contract.
+// altProgram loads /repo once more with extra build tags (e.g. the race variants of the caches).
+func (e *Engine) altProgram(tag string) (*Program, error) {
+	if e.alt == nil {
+		e.alt = map[string]*Program{}
+	}
+	if p, ok := e.alt[tag]; ok {
+		return p, nil
+	}
+	p, err := loadProgram("verif," + tag)
+	if err != nil {
+		return nil, err
+	}
+	gi := buildGlobalIndex(p)
+	for g, info := range gi.info {
+		theGlobals.info[g] = info
+	}
+	e.alt[tag] = p
+	return p, nil
+}
+
+// verifyFunction generates all obligations of one function under contract (and of its
+// variants under additional build tags).
 func (e *Engine) verifyFunction(fn *ssa.Function, c *Contract, prop string) ([]*Obligation, []string, error) {
+	obls, notes, err := e.verifyFunctionIn(e.P, fn, c, prop, "")
+	if err != nil {
+		return nil, nil, err
+	}
+	for _, tag := range c.AlsoTags {
+		p, err := e.altProgram(tag)
+		if err != nil {
+			return nil, nil, fmt.Errorf("loading with tag %s: %v", tag, err)
+		}
+		fn2 := p.Funcs[c.Key]
+		if fn2 == nil {
+			return nil, nil, fmt.Errorf("%s does not exist under build tag %s", c.Key, tag)
+		}
+		o2, n2, err := e.verifyFunctionIn(p, fn2, c, prop, tag)
+		if err != nil {
+			return nil, nil, err
+		}
+		obls = append(obls, o2...)
+		notes = append(notes, n2...)
+	}
+	return obls, notes, nil
+}
+
+func (e *Engine) verifyFunctionIn(P *Program, fn *ssa.Function, c *Contract, prop, tag string) ([]*Obligation, []string, error) {
 	var obls []*Obligation
 	notes := map[string]bool{}
 	cases := expandSplits(c)
 	for _, sc := range cases {
 		vc := e.newVC(fn, c, prop)
+		vc.P = P
 		vc.caseTag = sc.tag
+		if tag != "" {
+			vc.caseTag = strings.TrimPrefix(sc.tag+",tags="+tag, ",")
+		}
 		if err := vc.runTop(sc); err != nil {
 			return nil, nil, err
 		}
@@ -101,6 +151,7 @@ func (e *Engine) verifyFunction(fn *ssa.Function, c *Contract, prop string) ([]*
 	for i := range c.Splits {
 		// remainder case: split expression i outside its range (makes the case split exhaustive)
 		vc := e.newVC(fn, c, prop)
+		vc.P = P
 		vc.caseTag = fmt.Sprintf("%s=rest", c.Splits[i].E.String())
 		vc.restOf = c.Splits[i]
 		if err := vc.runTop(splitCase{bind: map[string]int64{}, rest: true}); err != nil {
